@@ -135,6 +135,7 @@ class Sim:
         self.executed = []
         self.drain_tail = 3
         self.drain_budget = None
+        self.app_busy = lambda: False
         self.last_write = [0xff]
         self.open_tx = False
         self.n_neg = 0
@@ -226,7 +227,7 @@ class Sim:
             if self.evs[0][0] == 'D':                # drain: expanded here into explicit events
                 if self.drain_budget is None:        # a link that does not move (no safelink) must not loop
                     self.drain_budget = len(self.peer.txq) + 4
-                if (self.peer.txq or not self.drv.out_queue.empty()) and self.drain_budget > 0:
+                if (self.peer.txq or not self.drv.out_queue.empty() or self.app_busy()) and self.drain_budget > 0:
                     self.drain_budget -= 1
                     self.evs.insert(0, ['T', 'O', [1, 0x20]])
                     self.drain_tail = 3
@@ -297,6 +298,9 @@ class Sim:
                 self.open_tx = False
         finally:
             rd._nr_of_retries = self._saved_N
+        return self._finish()
+
+    def _finish(self):
         t = self.thread
         head = [len(self.neg_resps)]
         for o in self.neg_resps:
@@ -330,5 +334,56 @@ class Sim:
 
 
 
+    # ---- the same session with REAL threads: the radio loop in its own thread (Thread.start), the application
+    #      submitting and receiving concurrently from another one.  Not deterministic: used by the oracle only.
+    def run_threaded(self, app, timeout=60):
+        import random
+        import threading
+        import time
+        rd = self.rd
+        rng = random.Random(app['seed'])
+        done = threading.Event()
+        self.app_busy = lambda: not done.is_set()
+        self.drain_budget = 10 ** 7
+        self.put_timeouts = 0
+
+        def application():
+            try:
+                for i in range(app['n']):
+                    pk = self.CRTPPacket()
+                    pk.set_header((i * 7) % 15, i % 4)
+                    pk.data = bytes([i & 0xff, (i >> 8) & 0xff, rng.randrange(256)])
+                    f = [pk.header] + list(pk.data)
+                    if self.drv.send_packet(pk):
+                        self.accepted.append(f)
+                    else:
+                        self.put_timeouts += 1         # 2 s without a dequeue: outside the property (wall clock)
+                    if rng.random() < 0.5:
+                        r = self.drv.receive_packet(0)
+                        if r is not None:
+                            self.got.append([r.header] + list(r.data))
+                    if rng.random() < 0.3:
+                        time.sleep(rng.random() * 0.0004)
+            finally:
+                done.set()
+        at = threading.Thread(target=application, daemon=True)
+        self.thread.daemon = True
+        try:
+            self.thread.start()
+            at.start()
+            at.join(timeout)
+            self.thread.join(timeout)
+            self.hung = at.is_alive() or self.thread.is_alive()
+            if self.hung:
+                self.thread._sp = True
+        finally:
+            rd._nr_of_retries = self._saved_N
+        if self.open_tx:
+            self.open_tx = False
+        return self._finish()
+
+
 def run_case(case):
+    if case.get('threaded'):
+        return Sim(case).run_threaded(case['threaded'])
     return Sim(case).run()
